@@ -408,6 +408,57 @@ theorem reschedule_keeps_counts (q q1 : TimeQueue) (t t' : Time) (c c' : CId) (h
   have h2 := countIn_tqAppend q1 t' c c' (sortedQ_tqRemove q q1 t c hs h)
   omega
 
+/-- (RE-)SCHEDULING A LAUNCH: when InitializeConsumer + PrepareConsumerForLaunch act (the consumer is
+    pre-launch, has initialization parameters and a non-zero spawn time), the consumer ends up
+    initialized and in the launch schedule exactly once — whether it was scheduled before (at
+    `prevSpawn ≠ 0`) or not — and nobody else's entries change -/
+theorem prepare_scheduled_once (s s' : State) (c : CId) (prevSpawn : Time)
+    (hs : sortedQ s.spawnQ = true)
+    (hcount : countIn s.spawnQ c = if prevSpawn ≠ 0 then 1 else 0)
+    (hact : (!(isPrelaunched (s.get c).phase) || !(s.get c).hasInit || (s.get c).spawn == 0) = false)
+    (h : initializeAndPrepare s c prevSpawn = some s') :
+    countIn s'.spawnQ c = 1 ∧ (∀ c', c' ≠ c → countIn s'.spawnQ c' = countIn s.spawnQ c') ∧
+    (s'.get c).phase = .initialized := by
+  unfold initializeAndPrepare at h
+  simp only [hact, Bool.false_eq_true, if_false] at h
+  have hq : (s.set { s.get c with phase := Phase.initialized }).spawnQ = s.spawnQ := by
+    unfold State.set; split <;> rfl
+  rw [hq] at h
+  have hget : ∀ (t : State) (q : TimeQueue), State.get { t with spawnQ := q } c = t.get c := fun _ _ => rfl
+  by_cases hp : prevSpawn ≠ 0
+  · have hp' : (prevSpawn != 0) = true := by simpa using hp
+    simp only [hp', if_true] at h
+    cases hr : tqRemove s.spawnQ prevSpawn c with
+    | none => simp [hr] at h
+    | some q1 =>
+      simp only [hr, Option.some.injEq] at h
+      subst h
+      rw [if_pos hp] at hcount
+      have h1 := countIn_tqRemove s.spawnQ q1 prevSpawn c c hs hr
+      have hs1 := sortedQ_tqRemove s.spawnQ q1 prevSpawn c hs hr
+      refine ⟨?_, ?_, ?_⟩
+      · show countIn (tqAppend q1 (s.get c).spawn c) c = 1
+        rw [countIn_tqAppend _ _ _ _ hs1]; simp only [if_true] at h1 ⊢; omega
+      · intro c' hc'
+        show countIn (tqAppend q1 (s.get c).spawn c) c' = countIn s.spawnQ c'
+        have h2 := countIn_tqRemove s.spawnQ q1 prevSpawn c c' hs hr
+        rw [countIn_tqAppend _ _ _ _ hs1]; simp only [hc', if_false] at h2 ⊢; omega
+      · rw [hget]
+        rw [get_set_upd s c (fun x => { x with phase := Phase.initialized }) (fun _ => rfl)]
+  · have hp0 : prevSpawn = 0 := by simpa using hp
+    have hp' : (prevSpawn != 0) = false := by simp [hp0]
+    simp only [hp', Bool.false_eq_true, if_false, Option.some.injEq] at h
+    subst h
+    rw [if_neg hp] at hcount
+    refine ⟨?_, ?_, ?_⟩
+    · show countIn (tqAppend s.spawnQ (s.get c).spawn c) c = 1
+      rw [countIn_tqAppend _ _ _ _ hs, hcount]; simp
+    · intro c' hc'
+      show countIn (tqAppend s.spawnQ (s.get c).spawn c) c' = countIn s.spawnQ c'
+      rw [countIn_tqAppend _ _ _ _ hs]; simp [hc']
+    · rw [hget]
+      rw [get_set_upd s c (fun x => { x with phase := Phase.initialized }) (fun _ => rfl)]
+
 end Queue
 
 end ICS.Props.C10
